@@ -168,6 +168,68 @@ theorem py_get_freq_nofh (trx : Trx) (fn : Nat) (h : trx.fh = none) :
     trx.getRxFreq fn = .ok trx.rxFreq ∧ trx.getTxFreq fn = .ok trx.txFreq := by
   simp only [Trx.getRxFreq, Trx.getTxFreq, h, and_self]
 
+/-- **Histories on one transceiver.** Whatever was configured before (any sequence of `enable_fh` — successful or refused —
+and `disable_fh` on the same object, without power-off in between), after a `SETFH` inside the property's domain every
+look-up follows the standard for THESE parameters: nothing of an earlier configuration (mask, allocation length) survives. -/
+theorem py_history_last_enable (trx : Trx) (ops : List FhOp) (hsn maio fn : Nat) (ma : List (Int × Int))
+    (hh : hsn < 64) (h1 : 1 ≤ ma.length) (h2 : ma.length ≤ 64) :
+    ∃ rx tx, Spec.Hopping.select ma hsn maio fn = some (rx, tx) ∧
+      (trx.applyOps (ops ++ [.enable hsn maio ma])).getRxFreq fn = .ok (some rx) ∧
+      (trx.applyOps (ops ++ [.enable hsn maio ma])).getTxFreq fn = .ok (some tx) := by
+  obtain ⟨t', rx, tx, he, hs, hr, ht⟩ := py_get_freq_spec (trx.applyOps ops) hsn maio fn ma hh h1 h2
+  refine ⟨rx, tx, hs, ?_, ?_⟩ <;>
+    simp only [Trx.applyOps, List.foldl_append, List.foldl_cons, List.foldl_nil, Trx.applyOp] <;>
+    simp only [Trx.applyOps] at he <;> rw [he] <;> assumption
+
+/-- a refused `enable_fh` (parameters the constructor rejects) leaves the configuration in force untouched, and after
+`disable_fh` the fixed frequencies are returned, whatever the history was -/
+theorem py_history_refused_or_disabled (trx : Trx) (ops : List FhOp) (fn : Nat) :
+    (∀ hsn maio ma e, (trx.applyOps ops).enableFh hsn maio ma = .error e →
+      trx.applyOps (ops ++ [.enable hsn maio ma]) = trx.applyOps ops) ∧
+    (trx.applyOps (ops ++ [.disable])).getRxFreq fn = .ok trx.rxFreq ∧
+    (trx.applyOps (ops ++ [.disable])).getTxFreq fn = .ok trx.txFreq := by
+  have hfix : ∀ (l : List FhOp) (t : Trx), (t.applyOps l).rxFreq = t.rxFreq ∧ (t.applyOps l).txFreq = t.txFreq := by
+    intro l
+    induction l with
+    | nil => intro t; exact ⟨rfl, rfl⟩
+    | cons o l ih =>
+      intro t
+      have h := ih (t.applyOp o)
+      simp only [Trx.applyOps, List.foldl_cons] at h ⊢
+      rw [h.1, h.2]
+      cases o with
+      | enable hsn maio ma =>
+        simp only [Trx.applyOp, Trx.enableFh]
+        split
+        · rename_i t' he
+          split at he
+          · cases he
+          · cases he; exact ⟨rfl, rfl⟩
+        · exact ⟨rfl, rfl⟩
+      | disable => exact ⟨rfl, rfl⟩
+  refine ⟨?_, ?_, ?_⟩
+  · intro hsn maio ma e he
+    simp only [Trx.applyOps, List.foldl_append, List.foldl_cons, List.foldl_nil, Trx.applyOp]
+    simp only [Trx.applyOps] at he
+    rw [he]
+  · have h := py_get_freq_nofh ((trx.applyOps ops).disableFh) fn rfl
+    simp only [Trx.applyOps, List.foldl_append, List.foldl_cons, List.foldl_nil, Trx.applyOp]
+    simp only [Trx.applyOps] at h
+    rw [h.1]
+    exact congrArg _ (hfix ops trx).1
+  · have h := py_get_freq_nofh ((trx.applyOps ops).disableFh) fn rfl
+    simp only [Trx.applyOps, List.foldl_append, List.foldl_cons, List.foldl_nil, Trx.applyOp]
+    simp only [Trx.applyOps] at h
+    rw [h.2]
+    exact congrArg _ (hfix ops trx).2
+
+/-- non-vacuity: 6 channels (NBIN 3) re-configured to 3 channels (NBIN 2) without power-off; the look-up uses the new mask -/
+example :
+    ((({ fh := none, rxFreq := none, txFreq := none } : Trx).applyOps
+      [.enable 1 0 [(1, 11), (2, 12), (3, 13), (4, 14), (5, 15), (6, 16)], .enable 1 3 [(10, 20), (11, 21), (12, 22)]]).getRxFreq 2330631)
+      = .ok (some 11) := by
+  decide +kernel
+
 /-! ### Non-vacuity and the shape of the deviation branch -/
 
 /-- An instance inside the hypotheses where `M' ≥ N`, so `S = (M' + T') mod N` is used
